@@ -2,7 +2,7 @@
 import json, os
 import vlib
 LEVEL = "fault_enumeration"
-SRC = ["h/h_c06.c", "h/h_vmerr.c", "wrap/w_vmerr_simulate.c", "wrap/w_vmerr_errctx.c", "wrap/w_call_out.c", "wrap/w_backend.c"]
+SRC = ["h/h_c06.c", "h/h_vmerr.c", "wrap/w_vmerr_simulate.c", "wrap/w_vmerr_errctx.c", "wrap/w_call_out.c", "wrap/w_backend.c", "wrap/w_vmerr_array.c"]
 STEM = ["simulate.c", "error_context.c", "backend.c"]
 JOBS = int(os.environ.get("VERIF_JOBS", "16"))
 
@@ -34,7 +34,13 @@ RULE = ("corpus 1 = the C05 corpus: nesting shapes (compositions up to depth D o
         "operands of += + -= - &= & |= | *= * and range assignment are the SAME array / mapping / string / buffer, reached through a local, a "
         "second variable, an array element, a mapping value, a global; 24 call-cache scenarios: call_other to a static / private / protected "
         "/ inherited static / inherited private / prototype-only / undefined / public function on a cold and on a filled apply cache, by name, "
-        "on an array of objects and with an argument array, then the target is destructed and the cache cleared.  Oracle: every scenario runs 3 times in one process, "
+        "on an array of objects and with an argument array, then the target is destructed and the cache cleared; 650 'temporaries' scenarios "
+        "(gen/c06_temp_gen.py): the container operand is a TEMPORARY held only by the value stack -- source {literal aggregate, call result, sum of "
+        "two, call_other result} x {mapping: index present / present-then-index / missing / by temporary array key, sizeof, keys()[0], "
+        "values()[0], foreach, two indexes in one aggregate, undefinedp(index), map_delete; array: index, last, rindex, range, open range, "
+        "range from end, range-then-index, index-then-index, member_array, sizeof, foreach, indexes in an aggregate; string and buffer: index, "
+        "rindex, ranges, length; class instance: member, member-then-index, int member} x the value looked up {array, mapping, string, buffer, "
+        "funptr, class instance} is held only by that temporary; the result is used, kept in a global, used again and dropped.  Oracle: every scenario runs 3 times in one process, "
         "each followed by destruct of everything it created, three call_out sweeps, remove_destructed_objects(), release of apply_ret_value "
         "and catch_value, clear_apply_cache(); leak <=> counter vector after run 3 != after run 2; vector = num_arrays, total_array_size, "
         "num_mappings, total_mapping_nodes, total_mapping_size, num_distinct_strings, bytes_distinct_strings, tot_alloc_object, "
